@@ -253,14 +253,73 @@ def compile_(src, out, so, extra):
     return p.returncode, errs
 
 
+# user *types* (not generic parameters) called like the names the generated code picks for its own generic parameters and
+# helper structs: the generated items must not bring them into a scope where the user's field types are named
+TYPE_NAME_PROBE = r"""
+pub mod zz_type_names {
+    use super::*;
+    use educe::Educe;
+    #[derive(Debug, Clone, PartialEq, Eq, PartialOrd, Ord, Hash, Default)] pub struct H(pub u8);
+    #[derive(Debug, Clone, PartialEq, Eq, PartialOrd, Ord, Hash, Default)] pub struct H_(pub u8);
+    #[derive(Debug, Clone, PartialEq, Eq, PartialOrd, Ord, Hash, Default)] pub struct Educe__DebugField(pub u8);
+    #[derive(Debug, Clone, PartialEq, Eq, PartialOrd, Ord, Hash, Default)] pub struct V(pub u8);
+    #[derive(Debug, Clone, PartialEq, Eq, PartialOrd, Ord, Hash, Default)] pub struct M(pub u8);
+    #[derive(Educe)] #[educe(Debug, Clone, PartialEq, Eq, PartialOrd, Ord, Hash, Default)]
+    pub struct Hsv { pub h: H, pub s: H_, pub v: V, pub m: M, pub e: Educe__DebugField, #[educe(Debug(method(m_dbg)), Hash(method(m_hash)))] pub u: UB }
+    #[derive(Educe)] #[educe(Hash, Debug, Clone, PartialEq)]
+    pub struct G<H: Bnd> { pub a: H, pub b: H_, pub c: Educe__DebugField, #[educe(Debug(method(m_dbg)))] pub u: UB }
+    #[derive(Educe)] #[educe(Hash, Debug, Clone, PartialEq, Eq, PartialOrd, Ord)]
+    pub enum En { A(H, H_), B { x: Educe__DebugField, v: V, m: M, #[educe(Debug(method(m_dbg)))] y: UB } }
+    pub fn run() {
+        let a = Hsv { h: H(1), s: H_(2), v: V(3), m: M(4), e: Educe__DebugField(5), u: 6 };
+        let mut r = Rec::new(); ::core::hash::Hash::hash(&a, &mut r);
+        ::std::println!("{:?} {:?}", a, &r.buf[..r.len]);
+        let g = G::<UB> { a: 1, b: H_(2), c: Educe__DebugField(3), u: 4 };
+        let mut r = Rec::new(); ::core::hash::Hash::hash(&g, &mut r);
+        ::std::println!("{:?} {:?}", g, &r.buf[..r.len]);
+        let e = [En::A(H(1), H_(2)), En::B { x: Educe__DebugField(1), v: V(2), m: M(3), y: 4 }];
+        for x in e.iter() { let mut r = Rec::new(); ::core::hash::Hash::hash(x, &mut r); ::std::println!("{:?} {:?} {:?}", x, &r.buf[..r.len], ::core::cmp::Ord::cmp(x, &e[0])); }
+    }
+}
+"""
+TYPE_NAME_EXPECTED = [
+    "Hsv { h: H(1), s: H_(2), v: V(3), m: M(4), e: Educe__DebugField(5), u: <m>6 } [1, 2, 3, 4, 5, 2, 170]",
+    "G { a: 1, b: H_(2), c: Educe__DebugField(3), u: <m>4 } [1, 2, 3, 4]",
+]
+
+
+def type_name_probe(tie, so, work):
+    src = os.path.join(work, "type_names.rs")
+    with open(src, "w") as f:
+        f.write("#![allow(warnings)]\n" + SUPPORT + TYPE_NAME_PROBE + "fn main() { zz_type_names::run(); }\n")
+    rc, errs = compile_(src, os.path.join(work, "type_names"), so, [])
+    tie["evaluations"] += 3
+    if rc != 0:
+        tie["failing"].append({"what": "the derive does not compile when the user's field types are called like the generic parameters / helper structs the generated code picks (H, H_, V, M, Educe__DebugField)",
+                               "rust_source": TYPE_NAME_PROBE, "observed": "; ".join("%s %s" % (c, m[:160]) for _, c, m in errs[:3]), "expected_spec": "compiles", "replay_program": src})
+        return
+    p = subprocess.run([os.path.join(work, "type_names")], capture_output=True, text=True, timeout=60)
+    got = p.stdout.splitlines()
+    if p.returncode != 0 or got[:2] != TYPE_NAME_EXPECTED:
+        tie["failing"].append({"what": "the derive behaves differently when the user's field types are called like generated generic parameters",
+                               "rust_source": TYPE_NAME_PROBE, "observed": got[:2] or p.stderr[-300:], "expected_spec": TYPE_NAME_EXPECTED})
+
+
 def picked_names_tie(tie, rng, n):
     """The names the generated code picks for itself (`hasher_ident`, `debug_field_ident`) against the model's `pickName`
     (Names.lean; `pickName_fresh`, `pickName_first`): definitions whose own name and generic parameters are drawn from the
     candidate names, expanded in-process; the hasher parameter and the wrapper struct are read off the real tokens."""
     from .. import attr
+    cases, meta = picked_name_defs(rng, n)
+    return _picked_names_compare(tie, cases, meta)
+
+
+def picked_name_defs(rng, n, start=0):
+    """definitions (Debug with a custom method + Hash) whose own name and generic parameters are drawn from the names the
+    generated code would like to use itself; returns ([(id, source)], {id: (type name, generic names in order)})"""
     NAMES = ["H", "H_", "H__", "H___", "T", "Educe__DebugField", "Educe__DebugField_", "Educe__DebugField__", "U"]
     cases, meta = [], {}
-    for i in range(n):
+    for i in range(start, start + n):
         ident = rng.choice(["S%d" % i, "S%d" % i, "Educe__DebugField", "Educe__DebugField_", "H", "H_"])
         gens = rng.sample([x for x in NAMES if x != ident], rng.randint(0, 5))
         params, fields = [], ["#[educe(Debug(method(m)), Hash(method(hm)))] pub x: u8"]
@@ -287,6 +346,11 @@ def picked_names_tie(tie, rng, n):
         src = "#[derive(Educe)]\n#[educe(Debug, Hash)]\npub %s %s%s %s" % (kind, ident, g, body)
         cases.append((i, src))
         meta[i] = (ident, gens)
+    return cases, meta
+
+
+def _picked_names_compare(tie, cases, meta):
+    from .. import attr
     try:
         real = attr.expand_real(cases)
         lines = []
@@ -416,6 +480,7 @@ def main(tier):
             else:
                 tie["distinct_nontrivial"] += 1
     picked_names_tie(tie, rng, 150 if tier == "quick" else 1500)
+    type_name_probe(tie, so, work)
     # const parameters named like a generated local or parameter (known finding on the pinned tree)
     rc_b, out_b, _ = common.run(["lake", "env", "lean", "scripts/Binders.lean"], cwd=common.LEAN, timeout=600)
     locals_ = [x for x in out_b.split() if (x[0].islower() or x[0] == "_") and x not in KEYWORDS] if rc_b == 0 else []
